@@ -686,6 +686,8 @@ def check_bayer(case, ctx):
     else:
         rec = ctx.call(bayer.recomposite_bayer, *pl, cfa=cfa)
     U.check_equal(np.asarray(rec), img0, 'recomposite(decomposite):' + cfa, 'recomposite(decomposite(img)) != img')
+    if case['out_arg']:     # "output array": the caller's buffer is what gets filled
+        U.check_equal(np.asarray(buf), img0, 'recomposite:output-not-filled', 'the array passed as output= does not hold the mosaic afterwards')
     require_unchanged(ctx, 'recomposite_bayer', ['r plane', 'g1 plane', 'g2 plane', 'b plane'], pl, psnap)
     rec_kept = np.array(rec, copy=True)
     ind0 = [_marker((hm, hn), dt, case['seed'], 20 + k, level, offset=1000 * k) for k in range(4)]
@@ -701,7 +703,9 @@ def check_bayer(case, ctx):
     dense = [relayout(p.copy(), lay) for p in dense0]
     dsnap = snapshot(*dense)
     if case['out_arg']:
-        comp = np.asarray(ctx.call(bayer.composite_bayer, *dense, cfa=cfa, output=relayout(np.zeros((m, n), dtype=dt), lay)))
+        cbuf = relayout(np.zeros((m, n), dtype=dt), lay)
+        comp = np.asarray(ctx.call(bayer.composite_bayer, *dense, cfa=cfa, output=cbuf))
+        U.check_equal(np.asarray(cbuf), comp, 'composite:output-not-filled', 'the array passed as output= does not hold the composite afterwards')
     else:
         comp = np.asarray(ctx.call(bayer.composite_bayer, *dense, cfa=cfa))
     U.check_shape(comp, (m, n), 'composite')
